@@ -298,6 +298,32 @@ def check(ctx):
     del rdefs
 
 
+    # ---- R3 (cont.): what the chain collected is attached to the stage completely and in order
+    spm = ctx.repo.module("xonsh/procs/specs.py")
+    ra = spm.func("SubprocSpec.resolve_alias")
+    rdefs_ = df.all_defs(ra)
+    gets = [c for c in calls_in(ra) if (call_name(c) or "").endswith("aliases.get")]
+    if not gets:
+        raise AnchorMissing("xonsh/procs/specs.py:SubprocSpec.resolve_alias: call of aliases.get")
+    coll = {unparse(kwarg(c, "decorators")) for c in gets if kwarg(c, "decorators") is not None}
+    if len(coll) != 1:
+        raise AnalysisError(f"xonsh/procs/specs.py:SubprocSpec.resolve_alias: decorators collector not passed to aliases.get ({sorted(coll)})")
+    COLL = next(iter(coll))
+    loops_ = [l for l in walk_local(ra) if isinstance(l, ast.For) and unparse(l.iter) == COLL]
+    ok_iter = len(loops_) == 1
+    ctx.ob("R3", "xonsh/procs/specs.py:SubprocSpec.resolve_alias", f"the collected decorators `{COLL}` are iterated as collected (one plain loop: not reversed, sorted or made unique)", ok_iter, key="resolve_alias|decorators-iteration", where=loc(ra))
+    for l in loops_:
+        bcfg_ = CFG(l.body)
+        adds = [n for n in bcfg_.nodes if n.kind == "stmt" and any(call_name(c) == "self.add_decorator" and c.args and unparse(c.args[0]) == unparse(l.target) for c in calls_in(n.ast))]
+        ok_all, pth_ = bcfg_.must_pass(bcfg_.entry, lambda m_: m_ in adds, exits=("exit",)) if adds else (False, None)
+        ctx.ob("R3", "xonsh/procs/specs.py:SubprocSpec.resolve_alias", "every collected decorator is attached, unconditionally (a later decorator overrides an earlier one: dropping a repeated one changes the result)", ok_all, key="resolve_alias|decorator-skipped", where=loc(l), path=bcfg_.fmt_path(pth_) if pth_ else None)
+    ad = spm.func("SubprocSpec.add_decorator")
+    acfg_ = CFG(ad)
+    apps = [n for n in acfg_.nodes if n.kind == "stmt" and any(isinstance(c.func, ast.Attribute) and c.func.attr == "append" and "decorators" in unparse(c.func.value) for c in calls_in(n.ast))]
+    ok_app, _p = acfg_.must_pass(acfg_.entry, lambda m_: m_ in apps, exits=("exit",)) if apps else (False, None)
+    ctx.ob("R3", "xonsh/procs/specs.py:SubprocSpec.add_decorator", "add_decorator appends to the stage's list on every path (order of arrival kept)", ok_app, key="add_decorator|append", where=loc(ad))
+
+
 META = {
     "technique": "static analysis: recursion-variant check via CFG guard facts + def-use of the seen set, sequence-order analysis of list constructions, table-access-shape rule",
     "text": "Decides for all alias tables (the quantifier that examples cannot cover) the structural reasons the "
